@@ -8,15 +8,84 @@ from harness.core import Outcome, f2b, b2f
 
 ID = "C17"
 LEAN_TARGETS = ["BeyondVerif.Props.C17", "BeyondVerif.Witness.C17"]
-THEOREMS = []
-LEVEL_TEXT = ""
-LEVEL_NOTE = ""
-TECHNIQUE = ""
-TRUSTED = []
-ASSUMPTIONS = []
-NOT_COVERED = []
-OPEN = []
-RULE = ""
+THEOREMS = [
+    "BeyondVerif.C17.qsw_axes",
+    "BeyondVerif.C17.tnw_axes",
+    "BeyondVerif.C17.qsw_proper_rotation",
+    "BeyondVerif.C17.tnw_proper_rotation",
+    "BeyondVerif.C17.dv_magnitude",
+    "BeyondVerif.C17.dv_direction",
+    "BeyondVerif.C17.accel_of_dv_magnitude",
+    "BeyondVerif.C17.kepManDv_magnitude",
+    "BeyondVerif.C17.orbit_frame_origin",
+    "BeyondVerif.C17.orbit_frame_roundtrip",
+    "BeyondVerif.C17.orbit_frame_roundtrip_back",
+    "BeyondVerif.C17.impulse_window_once",
+    "BeyondVerif.C17.impulse_applied_within_one_step",
+    "BeyondVerif.C17.several_impulses_once",
+    "BeyondVerif.C17.impulse_outside_never",
+    "BeyondVerif.C17.thrust_window",
+    "BeyondVerif.C17.thrust_windows_tile",
+    "BeyondVerif.C17.dkep2dv_triangle",
+    "BeyondVerif.C17.dkep2dv_isclose_branch",
+    "BeyondVerif.C17.dkep2dv_first_order_a",
+    "BeyondVerif.C17.dkep2dv_dv_a",
+    "BeyondVerif.C17.dkep2aol_splits",
+    "BeyondVerif.C17W.short_burn_delivers_nothing",
+    "BeyondVerif.C17W.straddling_burn_delivers_too_much",
+    "BeyondVerif.C17W.half_step_burn_rk4",
+    "BeyondVerif.C17W.whole_step_burn_rk4",
+]
+LEVEL_TEXT = ("Lean theorems about code translated from the source on every run: to_qsw/to_tnw (local.py) are proper rotations (M M^T = 1, det = 1) with rows "
+              "(r^ | v^, w^ x first, w^) for every state with r x v != 0; a QSW/TNW/inertial maneuver vector is projected with exactly its magnitude and "
+              "components; the orbit-attached frame puts its orbit at the origin and round-trips; over integer microseconds, for every partition of a span "
+              "into positive steps (fixed or adaptive) ImpulsiveMan.check fires in exactly one step, the one containing the date (delay < that step), for each "
+              "of several maneuvers independently; ContinuousMan.check is start <= t < stop; dkep2dv (man.py) yields, outside its isclose shortcut, the "
+              "velocity v_final rotated by dangle, and realises da to first order (HasDerivAt = 1); dkep2aol splits the plane change as requested. "
+              "Projection, attached frame and step loop are hand-modelled and tied by differential correspondence with the real classes and KeplerNum.")
+LEVEL_NOTE = ("proof (partial): 'a continuous burn delivers its full delta-v' is false of the code for burns not aligned with the steps (known finding, kernel-checked "
+              "witnesses) and its quadrature is oracle-only; first-order realisation of (di, dOmega) is proved only up to the velocity geometry (triangle + "
+              "dkep2aol split), the Gauss-equation step is oracle-only; dkep2dv in floating point cancels catastrophically for small increments (known finding); "
+              "R -> double gap covered by tolerance-bounded correspondence; Lean kernel + propext/Classical.choice/Quot.sound; py2lean translator and harness trusted")
+TECHNIQUE = ("Lean 4 proof (ring/linear_combination identities on 3-vectors, HasDerivAt, induction over step lists with omega, kernel decide witnesses) over "
+             "formulas regenerated from the Python AST; differential correspondence for the hand-modelled parts")
+TRUSTED = [
+    "harness/py2lean.py: translate_vec_function (to_qsw, to_tnw -> Generated/Local{F,R}.lean), translate_slice (dkep2dv -> Generated/Dkep{F,R}.lean), "
+    "Tr.expr (dkep2aol, ImpulsiveMan.check, ContinuousMan.check -> Generated/ManWindow.lean); Butcher nodes read from the live KeplerNum.BUTCHER",
+    "lean/templates/Vec3.tpl (numpy cross / norm / matrix-vector products on 3-vectors), lean/templates/Man.tpl (to_local dispatch, projection, attached frame), "
+    "lean/BeyondVerif/Model/ManWin.lean (step loop of KeplerNum._iter/_make_step): hand-written, tied by the correspondence run",
+    "numpy / libm double arithmetic vs R: tolerance 1e-9 relative (1e-12 for rotation entries); dkep2dv's dv_w compared with a conditioning-aware tolerance",
+    "Date comparisons are exact at millisecond granularity (Date compares float MJD, resolution ~0.6 us: property C03)",
+]
+ASSUMPTIONS = [
+    "theorems are over R (frames, dkep2dv) and over Z microseconds (windows); the implementation computes in IEEE doubles and compares dates as float MJD",
+    "np.linalg.inv(expand(M^T)) in Orientation.convert_to is modelled as expand(M) (justified by qsw/tnw_proper_rotation, tied by correspondence)",
+    "steps of a propagation are positive (forward propagation); KeplerNum does not apply impulses on backward steps (check is never true for step < 0)",
+    "impulses falling in the same step are applied one after the other in list order, each in the local axes of the state it finds (oracle mirrors this)",
+    "first-order realisation of (di, dOmega) is stated at the argument of latitude given by dkep2aol and at an apsis (flight-path angle 0), as the docstring prescribes",
+]
+NOT_COVERED = [
+    "delivered delta-v of a continuous burn through Runge-Kutta stage sampling of the on/off switch (quadrature): oracle only; exact only for burns lasting a "
+    "whole number of fixed steps, otherwise off by up to one step's worth of thrust (known finding C17-continuous-burn-step-sampling)",
+    "realised (di, dOmega) from the out-of-plane impulse (Gauss planetary equations): oracle only (error within 20 x second order on 1e-7..0.3 rad)",
+    "states interpolated by Ephem (orb.propagate(date), iter with a step other than the propagator's) within 4 steps of an impulse are Lagrange-interpolated "
+    "across the velocity jump (measured: 67 % error of the jump one half step after it, 0.5 m/s of a 1 m/s impulse visible one half step before its date); "
+    "the theorems and the oracle speak about the integration grid (real steps) only; interpolation is property C09",
+    "floating-point evaluation of dkep2dv for small increments (known finding C17-dkep2dv-cancellation): the theorems are about the real-number formula",
+]
+OPEN = [
+    "dkep2dv_triangle carries the hypothesis that the isclose(ratio, 1) shortcut is not taken; inside it (plane change < 0.45 % of the tangential part) "
+    "dkep2dv_isclose_branch shows dv_w = 0, i.e. the requested (di, dOmega) are not realised — false of the code, filed as part of C17-dkep2dv-cancellation",
+    "whole_steps_full_dv (a burn lasting n fixed steps from a grid date delivers n*h*accel for Euler/RK4) is checked by the oracle (1e-9) and witnessed for one "
+    "instance (whole_step_burn_rk4); not stated as a general theorem",
+]
+RULE = ("correspondence: to_local on random elliptic/hyperbolic/retrograde states (radii 1 m .. 3.8e8 m) and an unknown tag; ImpulsiveMan.dv / ContinuousMan.accel "
+        "(accel= and dv=) for tags QSW/TNW/lowercase/None/other; KeplerianImpulsiveMan.dv, dkep2dv, dkep2aol on increments 1e-3 m..2e6 m, 1e-7..0.3 rad; "
+        "orbit2frame conversions both ways; ImpulsiveMan.check on real Dates over random step lists (ms granularity; on/off grid, outside the span, zero/negative "
+        "steps); impulses applied per step by the real KeplerNum loop (instrumented dv, 4 methods, up to 4 maneuvers); ContinuousMan.check at the stage dates of the "
+        "4 Butcher tableaux — all against the compiled Lean model; non-trivial = non-zero vector / increment; distinct = distinct request. "
+        "oracle: theorem statements on the real API incl. per-step velocity jumps of KeplerNum vs a maneuver-free step from the same state, delivered delta-v of "
+        "continuous burns in a gravity-free KeplerNum, realised da/di/dOmega vs requested to first order")
 
 LOCAL_PY = os.path.join(core.REPO, "beyond", "frames", "local.py")
 MAN_PY = os.path.join(core.REPO, "beyond", "orbits", "man.py")
@@ -551,7 +620,8 @@ def grid(orb, stop_s):
 
 
 def q6(x):
-    return round(x * 1e6) / 1e6
+    """times are kept on whole milliseconds: Date compares float MJD (resolution ~0.6 us, property C03)"""
+    return round(x * 1e3) / 1e3
 
 
 def gen_impulses(rng, step, nsteps, fixed):
@@ -564,9 +634,9 @@ def gen_impulses(rng, step, nsteps, fixed):
         if c < 0.3:
             t = step * rng.randrange(1, nsteps)            # on the grid (fixed-step methods)
         elif c < 0.4 and ts:
-            t = ts[-1] + rng.choice([0.0, 1e-6, 0.5])       # same date / same step as the previous one
+            t = ts[-1] + rng.choice([0.0, 1e-3, 0.5])       # same date / same step as the previous one
         elif c < 0.5:
-            t = step * rng.randrange(1, nsteps) + rng.choice([-1e-6, 1e-6])
+            t = step * rng.randrange(1, nsteps) + rng.choice([-1e-3, 1e-3])
         else:
             t = q6(rng.uniform(0, span))
         t = q6(t)
@@ -697,7 +767,7 @@ def oracle_continuous(out, rng, N):
             out.fail(f"continuous-quadrature-bound-{method}", "delivered delta-v is off by more than one step's worth of thrust", inp, observed=float(delivered), expected=want)
         elif rel > 1e-3:
             out.tally(f"continuous-rel-error>1e-3 ({kind})")
-            if kind == "shorter-than-step" or True:
+            if True:
                 out.fail("continuous-burn-not-aligned-with-steps",
                          "a continuous burn whose start/stop do not fall on integration steps delivers a delta-v off by more than 1e-3 (stage sampling of the on/off switch)",
                          inp, observed=float(delivered), expected=want, rel_error=rel)
@@ -807,4 +877,26 @@ def oracle(ctx, widened):
     oracle_impulses(out, rng, 250 if big else 25)
     oracle_continuous(out, rng, 300 if big else 40)
     oracle_dkep(out, rng, 3000 if big else 400)
+    return out
+
+
+def replay(f):
+    """re-evaluate the recorded failing input of one oracle family on the current tree"""
+    import random
+    out = Outcome()
+    fam = f.get("family", "")
+    inp = f.get("input", {})
+    if fam.startswith("dkep2dv") and isinstance(inp, dict) and "kep" in inp:
+        import numpy as np
+        from beyond.orbits.man import dkep2dv
+        orbc = mk_orbit(inp["kep"], "keplerian").copy(form="cartesian")
+        dv = np.array(dkep2dv(orbc, da=inp["da"], di=inp["di"], dOmega=inp["dOmega"]), dtype=float)
+        sdv = stable_dkep2dv(float(orbc.infos.v), float(orbc.infos.kep.a), float(orbc.infos.kep.i), inp["da"], inp["di"], inp["dOmega"], mu=float(orbc.frame.center.body.mu))
+        if not (np.all(np.isfinite(dv)) and np.allclose(dv, sdv, rtol=0, atol=1e-6 * norm(sdv) + 1e-12)):
+            out.fail(fam, f["what"], inp, observed=dv.tolist(), expected=sdv)
+        return out
+    # other families: re-run the oracle part that produced it with a fresh generator
+    ctx = core.Ctx(ID, "quick", 0)
+    full = oracle(ctx, False)
+    out.failures = [x for x in full.failures if x["family"] == fam]
     return out
